@@ -17,13 +17,15 @@ ID = "C12"
 RULE = (
     "seeded samples (normal, heavy-tailed t/cauchy-clipped, tied, outliers, multi-modal, skewed; n = 3..20000; scale 1e-6..1e6; "
     "shift up to 1e6 sigma) x bandwidth mode (user from range/1e3 to 8 x range, rule of thumb, cross-validated incl. "
-    "sub-sampled) x query sets (dense, at computed region edges +-1ulp, at samples, far outside, scalar); "
+    "sub-sampled) x query sets (dense, at computed region edges +-1ulp, at samples, far outside, scalar); samples also given as (k, m) tables; "
+    "two large batches per job (3000-12000 points against 3000-20000 samples in one call); "
     "non-trivial = at least one query has a sample beyond 3.5 h (truncation active); distinct = distinct (sample, h, queries)"
 )
 ASSUMPTIONS = ["the global numpy RNG is seeded before the sub-sampled cross-validation path (it draws from numpy.random.random)"]
 TIMEOUT = {"quick": 400, "thorough": 2400}
 REQUIRED = {"post:__call__": 300, "post:cdf": 200, "cases:cv": 10, "cases:user_bandwidth": 40, "cases:wide_bandwidth": 3,
-            "edge_queries": 500, "affine_reruns": 60, "queries_with_truncation": 2000}
+            "edge_queries": 500, "affine_reruns": 60, "queries_with_truncation": 2000,
+            "large_batch_evaluations": 20, "cases:sample_given_as_table": 8}
 
 PHI35 = 0.00023262907903552504  # Phi(-3.5)
 
@@ -158,6 +160,13 @@ def run_job(job, rec):
         rec.context = {"case": c, "kind": kind, "n": n, "mode": mode, "scale": float(np.std(s)), "location": float(np.mean(s)), **{k: v for k, v in kw.items()}}
         np_seed = int(rng.integers(2**31))
         np.random.seed(np_seed)
+        if n >= 6 and rng.random() < 0.12:
+            # the same values as a table (chains x steps): the constructor takes the flattened values
+            divs = [k for k in range(2, min(n // 2, 40) + 1) if n % k == 0]
+            if divs:
+                s_in = s_in.reshape(int(rng.choice(divs)), -1)
+                rec.count("cases:sample_given_as_table")
+                rec.context["sample_shape"] = s_in.shape
         before = s_in.copy()
         kde = guarded(GaussianKDE, s_in, **kw)
         if isinstance(kde, Raised):
@@ -315,6 +324,47 @@ def run_job(job, rec):
                 lim = (full[:60] - near[:60]) + (f3 - n3) * al + 1e-7 * full[:60] + slack[:60] * 2
                 rec.check(bool(np.all(np.abs(al * p3 - pdf[:60]) <= lim)), "not-affine-covariant",
                           lambda: f"a*KDE(a s + b)(a x + b) differs from KDE(s)(x) by {np.abs(al * p3 - pdf[:60]).max():.3e} (a={al:.3e}, {mode})", rec.context)
+
+    # ------------------------------------------------ large batches: thousands of evaluation points against thousands of samples in one call
+    for c in range(job.get("n_batch", 2)):
+        r = mk_rng(job["seed"], "C12-batch", job["j"], c)
+        if c == 0:
+            n, m = int(r.choice([3000, 6000])), int(r.choice([3000, 5000]))
+            s = r.normal(size=n) * 10.0 ** r.uniform(-2, 2)
+            kw = {"bandwidth": float((s.max() - s.min()) * r.uniform(0.3, 2.0))}   # every sample within reach of every point
+        else:
+            n, m = 20000, int(r.choice([6000, 12000]))
+            s = np.where(r.random(n) < 0.5, r.normal(-2, 1, n), r.normal(3, 0.5, n))
+            kw = {}
+        q = np.sort(r.uniform(s.min(), s.max(), size=m)) if r.random() < 0.5 else r.uniform(np.quantile(s, 0.02), np.quantile(s, 0.98), size=m)
+        rec.context = {"large_batch": c, "n": n, "points": m, **kw}
+        kde = guarded(GaussianKDE, s.copy(), **kw)
+        if isinstance(kde, Raised):
+            rec.violation("raised", f"GaussianKDE construction raised {kde!r}", rec.context)
+            continue
+        h = float(kde.h)
+        pdf, cdf = guarded(kde, q), guarded(kde.cdf, q)
+        if isinstance(pdf, Raised) or isinstance(cdf, Raised):
+            rec.violation("raised", f"evaluation raised {pdf!r} / {cdf!r}", rec.context)
+            continue
+        pdf, cdf = np.asarray(pdf, float), np.asarray(cdf, float)
+        full, near, cdf_ref, far_l, far_r = exact(s, h, q)
+        rec.count("large_batch_evaluations")
+        rec.count("large_batch_point_sample_pairs", n * m)
+        rec.case(digest("batch", n, m, h), nontrivial=True)
+        pos_err = 8 * eps * max(np.abs(s).max(), np.abs(q).max()) / h
+        slack = (1e-12 + 6 * pos_err) * full + 1e-300
+        bad = (pdf > full + slack) | (pdf < near - slack - (4.0 * pos_err) * full)
+        rec.check(pdf.shape == q.shape and not bad.any(), "pdf-outside-truncation-bound",
+                  lambda: f"batch of {m} points, n={n}, h={h:.4e}: density at x={q[bad][0]!r} is {pdf[bad][0]!r}; exact KDE {full[bad][0]!r} ({int(bad.sum())} points wrong)", rec.context)
+        ctol = 1e-12 + pos_err
+        badc = (cdf > cdf_ref + far_l * PHI35 + ctol) | (cdf < cdf_ref - far_r * PHI35 - ctol)
+        rec.check(cdf.shape == q.shape and not badc.any(), "cdf-outside-truncation-bound",
+                  lambda: f"batch of {m} points, n={n}, h={h:.4e}: cdf at x={q[badc][0]!r} is {cdf[badc][0]!r}; exact {cdf_ref[badc][0]!r} ({int(badc.sum())} points wrong)", rec.context)
+        k = int(r.integers(m))
+        p1 = guarded(kde, float(q[k]))
+        rec.check((not isinstance(p1, Raised)) and abs(float(p1) - pdf[k]) <= 1e-13 * max(pdf[k], 1e-300) + 1e-300, "scalar-vs-array",
+                  lambda: f"scalar call at {q[k]!r} gives {p1!r}; the same point in a batch of {m} gives {pdf[k]!r}", rec.context)
 
     rec.count("post:__call__", a_call.calls)
     rec.count("post:cdf", a_cdf.calls)
